@@ -34,6 +34,22 @@ PREFIX = {"UNARY_MINUS": ("-", L_UNARY), "NOT": ("!", L_UNARY), "NOT_KW": ("not"
 POSTFIX = {"POST_INCREMENT": "++", "POST_DECREMENT": "--", "RATE": "'"}
 QUANT = {"FORALL": "forall", "EXISTS": "exists", "SUM": "sum"}
 BUILTIN = {"ABS_F": ("abs", 1), "FMOD_F": ("fmod", 2), "FMA_F": ("fma", 3), "POW_F": ("pow", 2), "SQRT_F": ("sqrt", 1)}
+# every built-in function of the language (the kind <-> name tables of parser and printer are long hand-written lists);
+# used at depth 1 only, the five above stand for them at depth 2
+BUILTIN_ALL = {
+    "FABS_F": ("fabs", 1), "EXP_F": ("exp", 1), "EXP2_F": ("exp2", 1), "EXPM1_F": ("expm1", 1), "LN_F": ("ln", 1), "LOG_F": ("log", 1),
+    "LOG10_F": ("log10", 1), "LOG2_F": ("log2", 1), "LOG1P_F": ("log1p", 1), "CBRT_F": ("cbrt", 1), "SIN_F": ("sin", 1), "COS_F": ("cos", 1),
+    "TAN_F": ("tan", 1), "ASIN_F": ("asin", 1), "ACOS_F": ("acos", 1), "ATAN_F": ("atan", 1), "SINH_F": ("sinh", 1), "COSH_F": ("cosh", 1),
+    "TANH_F": ("tanh", 1), "ASINH_F": ("asinh", 1), "ACOSH_F": ("acosh", 1), "ATANH_F": ("atanh", 1), "ERF_F": ("erf", 1), "ERFC_F": ("erfc", 1),
+    "TGAMMA_F": ("tgamma", 1), "LGAMMA_F": ("lgamma", 1), "CEIL_F": ("ceil", 1), "FLOOR_F": ("floor", 1), "TRUNC_F": ("trunc", 1),
+    "ROUND_F": ("round", 1), "FINT_F": ("fint", 1), "ILOGB_F": ("ilogb", 1), "LOGB_F": ("logb", 1), "FP_CLASSIFY_F": ("fpclassify", 1),
+    "IS_FINITE_F": ("isfinite", 1), "IS_INF_F": ("isinf", 1), "IS_NAN_F": ("isnan", 1), "IS_NORMAL_F": ("isnormal", 1), "SIGNBIT_F": ("signbit", 1),
+    "IS_UNORDERED_F": ("isunordered", 1), "RANDOM_F": ("random", 1), "RANDOM_POISSON_F": ("random_poisson", 1), "FMAX_F": ("fmax", 2),
+    "FMIN_F": ("fmin", 2), "FDIM_F": ("fdim", 2), "HYPOT_F": ("hypot", 2), "ATAN2_F": ("atan2", 2), "LDEXP_F": ("ldexp", 2),
+    "NEXT_AFTER_F": ("nextafter", 2), "COPY_SIGN_F": ("copysign", 2), "RANDOM_ARCSINE_F": ("random_arcsine", 2), "RANDOM_BETA_F": ("random_beta", 2),
+    "RANDOM_GAMMA_F": ("random_gamma", 2), "RANDOM_NORMAL_F": ("random_normal", 2), "RANDOM_WEIBULL_F": ("random_weibull", 2),
+    "RANDOM_TRI_F": ("random_tri", 3),
+}
 
 
 # ---- trees ------------------------------------------------------------------------
@@ -119,7 +135,7 @@ def render(t, full):
     if k == "CALL":
         return "%s ( %s )" % (t[1], " , ".join(sub(c, level(c) < L_ASSIGN) if not full else sub(c, True) for c in t[2:]))
     if k == "BUILTIN":
-        return "%s ( %s )" % (BUILTIN[t[1]][0], " , ".join(sub(c, level(c) < L_ASSIGN) if not full else sub(c, True)
+        return "%s ( %s )" % ((BUILTIN.get(t[1]) or BUILTIN_ALL[t[1]])[0], " , ".join(sub(c, level(c) < L_ASSIGN) if not full else sub(c, True)
                                                              for c in t[2:]))
     if k == "QUANT":
         return "%s ( %s : %s ) %s" % (QUANT[t[1]], t[2], t[4] if len(t) > 4 else "int[0,1]", sub(t[3], False))
@@ -207,8 +223,12 @@ LEAVES_EXTRA = [("INT", 1), ("INT", 0), ("DBL", "1.5", "0x1.8p+0"), ("BOOL", 1),
 
 
 def depth1():
-    """every constructor with leaf operands"""
-    return [(name, mk(list(defaults))) for name, mk, defaults, _ in constructors()]
+    """every constructor with leaf operands, and every built-in function"""
+    out = [(name, mk(list(defaults))) for name, mk, defaults, _ in constructors()]
+    for bk, (nm, ar) in BUILTIN_ALL.items():
+        out.append((bk, ("BUILTIN", bk) + tuple([ID("z"), ID("w"), ID("z")][:ar])))
+        out.append((bk + "/int-args", ("BUILTIN", bk) + tuple([ID("a"), ("INT", 2), ID("b")][:ar])))
+    return out
 
 
 def depth2():
